@@ -153,6 +153,23 @@ def check_pair(ctx, model, nptdms, tmp, data, index, stats, label, marker, cut=F
                         dis.append(dict(what="index only (%s): %s" % (label, d[0]), index=index.hex()))
             finally:
                 f.close()
+        # the EAGER entry points on the index alone (path and stream): there is no data to read, so asking a non-empty channel for
+        # values must raise, never return values
+        for name, mk in (("TdmsFile.read(index path)", lambda: T.read(p_only, raw_timestamps=True)), ("TdmsFile(index path)", lambda: T(p_only, raw_timestamps=True)),
+                         ("TdmsFile.read(index stream)", lambda: T.read(io.BytesIO(index), raw_timestamps=True))):
+            rf = cl.call(mk)
+            stats["index_only"] += 1
+            if rf[0] != "ok":
+                continue        # reported by the metadata comparison below where it applies
+            for c in cl.channels_of(rf[1]):
+                if len(c) == 0:
+                    continue
+                for nm, fn in ((".data", lambda: c.data), ("[:]", lambda: c[:]), ("[0]", lambda: c[0]), ("read_data()", lambda: c.read_data()), ("iteration", lambda: list(c))):
+                    rr = cl.call(fn)
+                    if rr[0] == "ok":
+                        vio.append(Violation("%s: %s on %r returned %s instead of raising (the index holds no data)" % (name, nm, c.path, str(rr[1])[:60]),
+                                             dict(kind="index-only", data=data.hex(), index=index.hex(), op=nm)))
+                        break
         # the index alone handed over as a stream (in-memory): every entry point gives the same objects / properties / types / lengths
         exp_meta = {k: v for k, v in a[1].items()}
         exp_meta["chans"] = [({k: v for k, v in c.items() if k != "data"} if isinstance(c, dict) else c) for c in exp_meta["chans"]]
